@@ -491,7 +491,7 @@ class ShBytesIO(metaclass=_ShBytesIOMeta):
         return mkbytes(self._buf)
 
     def getbuffer(self):
-        return self.getvalue()
+        return _BufView(self)
 
     def truncate(self, size=None):
         self._chk()
@@ -535,6 +535,40 @@ class ShBytesIO(metaclass=_ShBytesIOMeta):
 
     def __iter__(self):
         raise EngineGap("iteration over ShBytesIO lines")
+
+
+class _BufView:
+    """model of the memoryview returned by BytesIO.getbuffer()"""
+
+    def __init__(self, owner):
+        self._o = owner
+
+    def __enter__(self):
+        return self
+
+    def __exit__(self, *a):
+        return False
+
+    def release(self):
+        pass
+
+    def __len__(self):
+        return len(self._o._buf)
+
+    def __getitem__(self, i):
+        if _isinstance(i, slice):
+            i = slice(concretize(i.start), concretize(i.stop), concretize(i.step))
+            return mkbytes(self._o._buf[i])
+        return self._o._buf[concretize(i)]
+
+    def __iter__(self):
+        return iter(list(self._o._buf))
+
+    def tobytes(self):
+        return mkbytes(self._o._buf)
+
+    def __bytes__(self):
+        return bytes(self._o._concrete("bytes(getbuffer())"))
 
 
 class ShIO(types.ModuleType):
